@@ -40,7 +40,7 @@ ASSUMPTIONS = [
     "restart after an incomplete export (saves after the last export, or bundles newer than the index): only 'no wrong data' is required",
     "faults are never silent: a failed write raises OSError and leaves an empty or torn file; a failed read raises OSError",
 ]
-PROBES = ["invivo_pipeline_reads_checked", "invivo_restored_items_checked", "resave_then_get", "get_from_disk", "save_crossed_max_rows", "resave_exported_item",
+PROBES = ["invivo_pipeline_reads_checked", "invivo_restored_items_checked", "invivo_xprocess_items_checked", "resave_then_get", "get_from_disk", "save_crossed_max_rows", "resave_exported_item",
           "restart_clean", "restart_unclean", "multi_bundle", "item_cache_evicted", "bundle_cache_evicted",
           "absent_read", "fault_write_enospc", "fault_write_torn", "fault_read_eio", "fault_reported",
           "read_after_fault_ok", "restart_after_fault", "dict_restore", "xprocess_restart"]
@@ -360,6 +360,8 @@ def execute_invivo(trace):
         probes["invivo_restored_items_checked"] = st["c15_restore_checked"]
     if st.get("c15_dict_attrs_checked"):
         probes["dict_restore"] = st["c15_dict_attrs_checked"]
+    if st.get("c15_xprocess_items"):
+        probes["invivo_xprocess_items_checked"] = st["c15_xprocess_items"]
     violation = None
     known = load_known(PID)
     cands = []
@@ -378,6 +380,18 @@ def execute_invivo(trace):
         violation = {"step": len(trace["ops"]) - 1, "cls": "invivo:" + v["cls"], "detail": dict(v, signature=sig, run_status=out.get("status"),
                                                                                                other_signatures=sorted({c[1] for c in cands[1:]})[:10])}
     status = out.get("status", "?")
+    # a pipeline that fails only because bundles were exported / evicted mid-analysis reads something else than it saved
+    run = next((op for op in trace["ops"] if op["op"] == "run"), {})
+    if violation is None and status != "ok" and (run.get("max_rows", 400000) != 400000 or run.get("caps")):
+        base_ops = [dict(op, max_rows=400000, caps={}, xprocess_hashseed=0) if op["op"] == "run" else op for op in trace["ops"]]
+        out0, _rep0 = invivo.run_ops(base_ops)
+        probes["invivo_failure_rechecked_with_stock_knobs"] = 1
+        if out0.get("status") == "ok":
+            where = (out.get("detail") or "").split(" @ ")[-1]
+            sig = f"invivo|storage_dependent_failure|{status}|{where}"
+            violation = {"step": len(trace["ops"]) - 1, "cls": "invivo:storage_dependent_failure", "detail": {
+                "signature": sig, "status": status, "error": out.get("detail"), "frames": out.get("tb"),
+                "max_rows": run.get("max_rows"), "caps": run.get("caps"), "with_stock_knobs": out0.get("status")}}
     log = [status, out.get("detail", ""), sorted(invivo_signature(v) for v in rep.get("c15", [])),
            st.get("c15_saves"), st.get("c15_reads_checked"), st.get("c15_restore_checked")]
     return {"violation": violation, "probes": probes, "faults": {}, "states": set(), "trans": set(),
